@@ -298,9 +298,9 @@ pub fn property() -> Property {
             "when the intermediate instant is out of range but the final one is in range (only possible within a DST shift of the limits) either outcome is accepted and counted as intermediate-out-of-range",
         ],
         checks: vec![
-            Box::new(Prop { name: "c06.span", quick: 2_000_000, thorough: 20_000_000, strategy: strat_span, test: test_span }),
-            Box::new(Prop { name: "c06.duration", quick: 1_000_000, thorough: 10_000_000, strategy: strat_duration, test: test_duration }),
-            Box::new(Prop { name: "c06.day", quick: 1_000_000, thorough: 10_000_000, strategy: strat_day, test: test_day }),
+            Box::new(Prop { name: "c06.span", quick: 8_000_000, thorough: 20_000_000, strategy: strat_span, test: test_span }),
+            Box::new(Prop { name: "c06.duration", quick: 4_000_000, thorough: 10_000_000, strategy: strat_duration, test: test_duration }),
+            Box::new(Prop { name: "c06.day", quick: 4_000_000, thorough: 10_000_000, strategy: strat_day, test: test_day }),
         ],
         floors: |rec| {
             rec.floor("c06.span:offset-differs-across", "c06.span:cases", 0.10);
